@@ -97,6 +97,25 @@ theorem sweep_old_breaks_lock_order_witness :
     after [] (sweepProgOld [(true, true)]) = none ∧ after [] (sweepProg [(true, true)]) = some [] := by
   decide
 
+/-- **The wait-for graph is touched only inside the lock-table section** by
+    `try_lock_with_wait_tracking`: for every blocker list (any number of `add_wait` calls, each with
+    its early-return / priority branch) and for the granted path (`remove_transaction`), every
+    acquisition of `edges` / `reverse_edges` / `wait_started` / `priorities` happens while both
+    lock-table write guards are held.  (What that buys at the level of data is
+    `SectionProps.ended_tx_absent_in_every_interleaving`.) -/
+theorem try_lock_wt_touches_graph_inside_section (blockers : Option (List (Bool × Bool))) (oi : Bool × Bool) :
+    graphUnderTable [] (lmTryLockWT blockers oi) = true :=
+  graphUnderTable_lmTryLockWT blockers oi
+
+/-- the variant that drops the guards before recording the edges touches the graph outside the
+    section — and the lock ORDER does not notice: its acquisitions are still rank-ordered, so
+    `coordinator_calls_never_stuck` holds of it as well (it is a race, not a deadlock) -/
+theorem drop_guards_first_is_still_rank_ordered_witness :
+    graphUnderTable [] (lmTryLockWTDropGuardsFirst [(false, false)]) = false ∧
+    after [] (lmTryLockWTDropGuardsFirst [(false, false)]) = some [] ∧
+    graphUnderTable [] (lmTryLockWT (some [(false, false)]) (false, false)) = true := by
+  decide
+
 /-! ### non-vacuity -/
 
 /-- the hypotheses of `rank_ordered_threads_never_stuck` are satisfiable by real programs -/
